@@ -110,6 +110,10 @@ func cmdVerify(args []string) int {
 	knownPath := fs.String("known", "/verif/known_findings.txt", "known findings file")
 	level := fs.String("level", "proof", "evidence level")
 	fs.Parse(args)
+	currentProp = *prop
+	if currentProp == "ALL" {
+		currentProp = ""
+	}
 	if *cdir == "" {
 		*cdir = *repo
 	}
@@ -443,7 +447,7 @@ func cmdVerify(args []string) int {
 	if (*prop == "C17") && *fn == "" {
 		ml := 6
 		if *tier == "thorough" {
-			ml = 8
+			ml = 7
 		}
 		rs, errs := eng.runBstBounded(ml)
 		if errs != "" {
@@ -452,7 +456,7 @@ func cmdVerify(args []string) int {
 			fmt.Printf("VIOLATION property=%s replay=%s no-failing-input-found\n", pid, path)
 		}
 		for _, r := range rs {
-			bounded = append(bounded, map[string]interface{}{"label": "bounded", "what": "helper.Bst[" + r.Type + "] Insert/Remove histories vs multiset (Contains, Min, Max, Remove result after every step)", "max_history_length": ml, "domain_size": 4, "histories": r.Histories, "steps_checked": r.Steps, "failure": r.Failure})
+			bounded = append(bounded, map[string]interface{}{"label": "bounded", "what": "helper.Bst[" + r.Type + "] Insert/Remove/Min/Max histories of every length up to the bound vs multiset (each operation result; Contains of every value, Min and Max at the end of every history)", "max_history_length": ml, "domain_size": 4, "histories": r.Histories, "steps_checked": r.Steps, "failure": r.Failure})
 			if r.Failure != "" {
 				violations++
 				path := writeReplay(*replayDir, pid, "helper.Bst_bounded-histories_"+r.Type, map[string]interface{}{"obligation": "helper.Bst/bounded-histories/" + r.Type, "failing_input": map[string]interface{}{"type": r.Type, "history": r.Failure}})
